@@ -84,7 +84,7 @@ func (c15) Info(t core.Tier) core.Info {
 
 func c15TableCases() int { return len(c15Methods) * len(c15ContentTypes) * len(c15Queries) }
 
-func (c15) NumCases(t core.Tier) int { return c15TableCases() + tierN(t, 2000, 200000) }
+func (c15) NumCases(t core.Tier) int { return c15TableCases() + tierN(t, 2000, 800000) }
 
 func mediaType(ct string) string {
 	if i := strings.IndexByte(ct, ';'); i >= 0 {
